@@ -119,15 +119,15 @@ EXTRA = {
  "C02": "Sub-checks added later (cov-*): the triage / stable / exact stages of every predicate on its own, sub-normal and underflow regimes; four candidates below the documented input range are counted only; sign-underflow (separations 2^-1074..2^-500, third point on / beside the great circle, 6 argument orders); float-sign-reversal (the documented guarantee of the plain float test Sign on triples whose determinant is rounding noise).",
  "C03": "Sub-checks added later: t-junctions (chains whose vertices lie exactly on other edges, every crosser path incl. the slow path with a carried chain vertex); near-antipodal-edges (AB of length pi minus 2e-8..1e-12, CD next to an endpoint).",
  "C04": "Sub-checks added later: nested-complements (multi-shell / multi-hole families, every loop order, Invert and InitNested), cov-* (reference point and origin-inside logic of loops and polygons, incl. families with an even and an odd number of loops around the fixed origin); decoded-polygons (polar / origin-point / ordinary polygons, snapped and unsnapped, 4-70 vertices per loop, asked through Encode/Decode before and after their index exists).",
- "C05": "Sub-checks added later: cap-grid, cap-bound-alignment (cap centres on / beside every block boundary of the bound's level next to a face edge: CellUnionBound, FastCovering and Covering contain every interior probe), covering-histories (all sequences of option changes, region mutations and covering calls on one reused coverer up to depth 3-5), snapped-polygons (polygons whose vertices are cell centres / corners, exactly simple by an exact filter), index-cell-corner-leaves, cov-* (Rect / Cap / Cell / CellUnion / Polyline region predicates on every coarse cell incl. all level-0 faces); corner-cut loops (an edge crossing a cube face on which the loop has no vertex).",
- "C06": "Sub-checks added later: index-histories (Add / Build / Reset / fresh and long-lived query panels, depth 3-5), remove-last-histories, cov-shape-contract (every shape constructor incl. lax polygons with empty loops), cov-type-equivalence, cov-leaf-piles (collections that force leaf index cells), cov-clip-edge / cov-clip-face (ClipEdge, ClipToFace against exact clipping), cov-loop-relations; small-loop-inside-huge-loop collections (the interior tracker is inside a shape across ranges of edge-less cells).",
+ "C05": "Sub-checks added later: cap-grid, cap-bound-alignment (cap centres on / beside every block boundary of the bound's level next to a face edge: CellUnionBound, FastCovering and Covering contain every interior probe), covering-histories (all sequences of option changes, region mutations and covering calls on one reused coverer up to depth 3-5), snapped-polygons (polygons whose vertices are cell centres / corners, exactly simple by an exact filter), index-cell-corner-leaves, cov-* (Rect / Cap / Cell / CellUnion / Polyline region predicates on every coarse cell incl. all level-0 faces); corner-cut loops (an edge crossing a cube face on which the loop has no vertex); a polyline whose edge rises 14 degrees poleward of its endpoints.",
+ "C06": "Sub-checks added later: index-histories (Add / Build / Reset / fresh and long-lived query panels, depth 3-5), remove-last-histories, cov-shape-contract (every shape constructor incl. lax polygons with empty loops), cov-type-equivalence, cov-leaf-piles (collections that force leaf index cells), cov-clip-edge / cov-clip-face (ClipEdge, ClipToFace against exact clipping), cov-loop-relations; small-loop-inside-huge-loop collections (the interior tracker is inside a shape across ranges of edge-less cells); three-face-edge polygons and loops.",
  "C07": "Sub-checks added later: cov-* (every branch of the loop-relation visitors incl. wedge cases at shared vertices), loop-reuse-relations (the same pair asked repeatedly and in both orders on long-lived objects).",
  "C08": "Deepened: 45-51 indexes (holes, nesting, full/empty polygon, lax shapes, indexes straddling every brute-force / enqueue threshold, deep indexes, leaf-index-cell piles, up to 2,000 edges), interiors for all target types and both query kinds, limits derived from each query's own distances (exactly / next float up / down), MaxResults up to n+1, MaxError up to pi, brute force vs optimized as a differential pair; reuse-histories (one long-lived query across index growth, Reset, option changes: all sequences up to length 3-4); compact-index-targets, index-target-max-error.",
  "C09": "Added later: encode / Invert / encode histories (a value that was already encoded is modified and encoded again); reader-kinds (every encoding decoded through readers that return 1 byte / short reads / io.ByteReader and not).",
  "C10": "Sub-checks added later: decoded-region-bounds, wide-regions, bound-histories (all sequences of bound reads, ContainsPoint, Invert, Normalize, Reverse, AddPoint on 22 objects up to depth 4-6), hull-nested-polygons, subregion-bound-rotation (metamorphic: ExpandForSubregions of rotated containing pairs), cov-* (hull and bounder branches).",
  "C11": "Sub-check added later: algebra-histories (in-place CellUnion modifiers incl. ExpandAtLevel / ExpandByRadius with aliasing operands, reused CellIndex iterators in every visiting order, repeated s2intersect.Find); face universes with the children of faces 0/5 and 3/4; Contains / Intersects with redundantly written arguments (duplicated cell, cell plus descendants).",
  "C12": "Sub-checks added later: cell-relations (all ordered pairs), cell-scalars, areas (320-bit solid-angle reference), edge-pairs, bounds-polar; edge alphabet includes edges of 60, 205 and 215 degrees; ancestor-containment (every ancestor of the leaf of each point of the boundary-hunting lattice contains the point).",
- "C13": "Keys are in addition a reflective dump of the complete object graph (deepKey); machines run in separate worker processes; M3 has a 14-loop polygon and an Edges/Chains operation; M5 Reset-after-growth; M1 adds the full polygon (a shape without edges that occupies every cell); M4-small-index (a one-cell index holding a loop and a polyline, whose cell contents no query may disturb).",
+ "C13": "Keys are in addition a reflective dump of the complete object graph (deepKey); machines run in separate worker processes; M3 has a 14-loop polygon and an Edges/Chains operation; M5 Reset-after-growth; M1 adds the full polygon (a shape without edges that occupies every cell); M4-small-index (a one-cell index holding a loop and a polyline, whose cell contents no query may disturb); M4-reused-ShapeIndex-target (one long-lived ShapeIndex distance target handed to fresh queries in every order).",
  "C14": "Also: full-memory happens-before pass (binary whose every pointer-reachable / package-level access of package s2 reports to the race check) on every scenario, scenario S7 (two polygons), family F-first-use (fresh-process exploration of first uses); the scheduler models sync.RWMutex writer preference (a pending Lock blocks later RLocks), so recursive read locking is found as a deadlock, and TryLock / TryRLock (one non-blocking point whose outcome is read from the mutex state).",
  "C15": "Added later: reader-kinds (every mutant class through 1-byte / short-read / non-ByteReader readers; totality must not depend on how the bytes arrive), in a capped worker process with culprit naming; thorough tier: second-order faults (header byte + truncation at every later position, all pairs of header bytes over the byte alphabet); the corpus includes hand-assembled version-1 polygons made only of one-vertex loops.",
  "C16": "Sub-check added later: tiny-at-endpoint (sub-normal-length edges ending at the other edge's endpoint).",
